@@ -9,4 +9,22 @@ def groups(tier):
                clause='manifest TTL below min rejected, above max capped'),
          Group('compose', 'ttl', 'C02/sanitize.c', entry='h_compose', replace=['sanitize_config', 'clamp_chunk_ttl'],
                clause='store path: clamp over the sanitised config (callee contracts only)')]
+    G.append(Group('store_path.lifetimes', 'node_store', 'C02/store_path.c', entry='h_store_path', unwind=3, kind='skeleton', checks=[], skeleton=True,
+                   replay='store', bound='control-flow skeleton (E3) of Node::store_chunk with value tags; loops unrolled twice',
+                   clause='every lifetime a store creates (chunk record, manifest expiry, shard record, self-announcement) is the value '
+                          'clamp_chunk_ttl returned for the configured window'))
     return G
+
+
+def replay(group, trace):
+    """the REAL Node::store_chunk under six configurations x thirteen requested TTLs: all four lifetimes inside the window"""
+    import sys, os
+    if group.replay != 'store':
+        return None, 'no native replay for this group'
+    root = os.path.dirname(os.path.dirname(os.path.abspath(__file__)))
+    sys.path.insert(0, os.path.join(root, 'replay'))
+    import replaylib as R
+    exe = R.build_full('C02.cpp', with_daemon=False)
+    rc, out = R.run(exe, [], timeout=180)
+    last = [l for l in out.strip().splitlines() if l.strip()][-1:] or ['']
+    return rc == 1, last[0][:400]
